@@ -45,6 +45,16 @@ CHECKS["C04"] = dict(
     note="Groups where any variant errors are inconclusive (the property's proviso). Trusts the printer/parser round trip of the generated AST.",
     ref="DESIGN.md §6 P-C04")
 
+CHECKS["C15"] = dict(
+    technique="runtime monitoring: metamorphic abstraction-step monitor (let/parameter introduction and inlining) with hook-observed variable resolution",
+    text="For random programs, one abstraction step at a time is applied at sampled abstraction sites - literal->%v at file/rule/block "
+         "scope, query prefix->%v in a same-context scope, all-references variant, unused lets (incl. unresolvable and erroring ones), "
+         "shadowing, inlining of parameterised-rule calls - and both programs are evaluated on the same document; the rule->status maps "
+         "must agree. Divergences are classified (hypothesis program for the `[*]`-after-variable quirk, per-line attribution for inlining) "
+         "so that known findings have narrow signatures.",
+    note="Skips the documented exception (`q empty` -> `%v empty`). Trusts the printer. Known findings: three classes in known_findings.json.",
+    ref="DESIGN.md §6 P-C15")
+
 PENDING = {}
 
 
